@@ -25,7 +25,7 @@ from ..ref import c12c13_part as P
 PROPERTY = 'C13'
 TIMEOUT = 60.0
 CHUNK = 16
-FLOOR = 0.45
+FLOOR = 0.5
 RULE = ('every adapt history (ordered disjoint blocks) on S scenarios x labels {default int, unordered strings, permuted '
         'ints} x block forms {scalar/list, list, tuple, fset[..], fset.loc, fset.iloc}; every illegal continuation; every '
         'ordered sequence of disjoint rectangle declarations over a (rows<=2) x (components<=3) mask for ro rules and dro '
@@ -405,8 +405,9 @@ def _run_mask(case):
 
     ro : min sum tau  s.t. tau >= |y(z) - (a + B z)| on the box  ->  optimum = sum of |B_ij| over undeclared cells.
     dro: every random variable z has a mirror w with support w == t_s * z in scenario s and the target is
-         a + B z + (B/4) w, i.e. the coefficient to be tracked is f_s * B with f_s = 1 + t_s/4 *per event*: the optimum
-         is max_s f_s * (sum over undeclared cells), reached only if every event has its own coefficients.
+         a + B z + (B/4) w, i.e. the coefficient to be tracked is f_s * B with f_s = 1 + t_s/4 *per event*; the bound tau is
+         event-wise and the objective is E(sum tau) under fixed probabilities: optimum = sum_s p_s f_s * (sum over
+         undeclared cells), reached only if every event has its own coefficients.
     """
     Bd = _rs['B']
     lp = _rs['lp']
@@ -432,13 +433,14 @@ def _run_mask(case):
         mirrors = [((m.rvar() if rv.shape == () else m.rvar(rv.shape)), comps) for rv, comps in rvars]
         y = m.dvar() if nrows == 1 else m.dvar(nrows)
         hist = [[S - 1]] if S >= 2 else []
-        if S >= 2:
-            y.adapt(S - 1)
-            ops()
         part = P.declared_partition(hist, S)
         tau_s = [3.0 if (S >= 2 and s_ == S - 1) else 2.0 for s_ in range(S)]
         fac = [1.0 + t_ / 4.0 for t_ in tau_s]
     tau = m.dvar() if nrows == 1 else m.dvar(nrows)
+    if not is_ro and S >= 2:
+        y.adapt(S - 1)
+        tau.adapt(S - 1)          # the residual bound is event-wise too, so every event is pinned on its own
+        ops(2)
     ops(4 + 2 * len(rvars))
     width = d if is_ro else 2 * d
     done = []
@@ -482,7 +484,9 @@ def _run_mask(case):
                     sup.append(mv == tau_s[s_] * rv)
                 fset.iloc[s_].suppset(*sup)
                 ops()
-            m.minsup(tau.sum() if nrows > 1 else tau, fset)
+            pr, _ = P.palette_pd(S, case['pal'])
+            fset.probset(m.p == pr)
+            m.minsup(_rs['E'](tau.sum() if nrows > 1 else tau), fset)
         m.st(tau >= y - t, tau >= t - y, pre == np.array([1.0, 2.0]))
         ops(5)
         m.solve(display=False)
@@ -491,7 +495,10 @@ def _run_mask(case):
         return _viol(tag + '|legal model failed to formulate', 'mask %s: %s %s' % (mask.tolist(), Bd.errname(ex), ex), ops.n)
     if not Bd.is_optimal(m):
         return {'status': 'vacuous', 'outcome': 'mask:not optimal', 'ops': ops.n}
-    want_obj = float(max(fac) * np.abs(B[mask == 0]).sum())
+    if is_ro:
+        want_obj = float(np.abs(B[mask == 0]).sum())
+    else:
+        want_obj = float(np.dot(pr, fac) * np.abs(B[mask == 0]).sum())
     got = float(m.get())
     ops()
     if not _close(got, want_obj):
